@@ -14,12 +14,12 @@ func init() {
 	register(&propertyDef{
 		id:    "C01",
 		title: "every run terminates with one output or an error",
-		rules: []ruleFunc{c01R1, c01R2, c01R3, c01R4, c01R5, c01R6, c01R7, c01R8},
+		rules: []ruleFunc{c01R1, c01R2, c01R3, c01R4, c01R5, c01R6, c01R7, c01R8, c01R9},
 		decided: "the deadlock-freedom and single-hand-over disciplines termination depends on: single guarded send of the workflow output under the run lock (R1); " +
 			"no blocking channel operation, Wait or Sleep while the run lock or a step lock is held, error reports non-blocking (R2); lock order run-lock -> step-lock only, " +
 			"no handler callback under a step lock, no Close/Wait under a lock (R3); Execute registers the terminate-all teardown on every path after the first step start (R4); " +
 			"every DAG resolution is followed by a notification, a cancel or an error return (R5); the no-more-outputs error is raised and cancels (R6); " +
-			"every wait in Execute has a context or timer case (R7); every function releases the locks it takes on every return (R8).",
+			"every wait in Execute has a context or timer case (R7); every function releases the locks it takes on every return (R8); a step that blocks waiting for input announced `waiting_for_input` with its last stage notification, so the event-driven deadlock detection runs after the step became idle (R9).",
 		notDecided: "liveness itself (that goroutines make the progress the disciplines allow), promptness, anything inside dgraph or the deployers.",
 	})
 }
@@ -862,4 +862,70 @@ func c01R8(c *Ctx) {
 		c.bad(rule, key, c.pos(fn.Pos()), "function can return with a different lock state than it was entered with ("+u+"): a lock left held blocks every later notification of the run")
 	}
 	c.minCount(rule, "functions with lock operations", n, 20)
+}
+
+// C01.R9 a step that blocks waiting for input has announced it.
+func c01R9(c *Ctx) {
+	const rule = "C01.R9"
+	c.explain("C01.R9 the fallback deadlock detection only runs while a stage notification is processed. On every explored path of a step goroutine: when it blocks on an input channel in state waiting_for_input, the most recent detector-triggering notification it sent (a stage change with a previous stage, or a completion) was already sent in that state — otherwise the last check of a run can see the step `running` and nothing ever ends a run whose remaining inputs can never arrive. (The first stage, which has no such notification before it, is outside this rule: documented gap.)")
+	inputs := map[string]bool{"deployInput": true, "enabledInput": true, "runInput": true, "executeInput": true}
+	for _, prov := range []string{"plugin", "foreach"} {
+		ts := c.stepTraces(prov)
+		if len(ts.undecided) > 0 || len(ts.traces) == 0 {
+			c.undecided(rule, "explore:"+prov, "-", "not explored exhaustively: "+strings.Join(ts.undecided, "; "))
+			continue
+		}
+		stateField := "state"
+		if prov == "foreach" {
+			stateField = "currentState"
+		}
+		nBlock := 0
+		bad := map[string][]pevent{}
+		for _, t := range ts.traces {
+			cur := "starting"
+			lastNotif := ""
+			for _, e := range t {
+				switch e.Kind {
+				case "store":
+					if e.Args[0] == stateField {
+						cur = e.Args[1]
+					}
+				case "change":
+					if e.Args[0] != "nil" {
+						lastNotif = cur
+					}
+				case "complete":
+					lastNotif = cur
+				case "select":
+					if len(e.Args) < 2 || strings.Contains(e.Args[1], "default") {
+						continue
+					}
+					ch := ""
+					for name := range inputs {
+						if strings.Contains(e.Args[1], "<-"+name) {
+							ch = name
+						}
+					}
+					if ch == "" {
+						continue
+					}
+					nBlock++
+					if cur == "waiting_for_input" && lastNotif != "" && lastNotif != "waiting_for_input" {
+						if _, dup := bad[ch]; !dup {
+							bad[ch] = t
+						}
+					}
+				}
+			}
+		}
+		for name := range inputs {
+			key := "announced:" + prov + ":" + name
+			if t, isBad := bad[name]; isBad {
+				c.bad(rule, key, c.pos(ts.root.Pos()), "the step goroutine enters `waiting_for_input` for "+name+" after its last stage notification (which was sent in another state): the deadlock detection that runs with that notification sees the step busy, and if no other step produces an event afterwards nothing ends a run whose remaining inputs can never arrive — Execute blocks forever", traceString(t))
+			} else {
+				c.ok(rule, key, c.pos(ts.root.Pos()), "whenever the step blocks on "+name+" in state waiting_for_input, its last detector-triggering notification was sent in that state", true)
+			}
+		}
+		c.minCount(rule, "blocking input waits on explored "+prov+" paths", nBlock, 4)
+	}
 }
